@@ -202,6 +202,11 @@ func c15ByLanguage(p *Program, r *Report) bool {
 			}
 			acc = relang.Union(acc, dd).Minimize()
 		}
+		if os.Getenv("C15_DEBUG") != "" {
+			for _, f := range forms {
+				fmt.Printf("FORM %s: %s\n", oe.PseudoKey[key], trunc(f.String(), 300))
+			}
+		}
 		if !okReg {
 			r.Undec("C15.R2", c, pos, "guards of the raw value not summarisable")
 			continue
